@@ -144,7 +144,9 @@ func HasLessPrecedence(current Token, next Token) bool {
 	// left associative. If we see another of the same type don't add onto the pile.
 	// right associative would return true here.
 	if current.Typ == next.Typ {
-		return false
+		// prefix operators nest to the right (NOT NOT a, --a, ++a): there is nothing to reduce
+		// between two of them, so the second one has to be shifted.
+		return current.Typ == TNot || current.Typ == TPlus || current.Typ == TMinus
 	}
 
 	// lower numbers mean higher precedence
